@@ -330,6 +330,47 @@ Definition thread_cfg (w : world) : option orcfg :=
   end.
 Definition session_cfg (w : world) : option orcfg := from_env (w_env w).
 
+(* ---- rip-cli: `rip run --provider P [--model M] [--stateless-history] [--parallel-tool-calls] [--followup-user-message F]`
+   (main.rs Commands::Run + apply_openresponses_env): the CLI writes the provider's endpoint, the flags and the provider's
+   key into ITS OWN environment - which the authority it then spawns inherits - and sends the same settings as per-request
+   overrides.  The only place where rip-cli touches a secret (T1: UEnvRead x3, UEnvSet). ---------------------------------- *)
+Inductive cli_provider := POpenai | POpenrouter.
+Record cli_flags := mkFlags {
+  f_provider : cli_provider;
+  f_model : option str;
+  f_stateless : bool;
+  f_parallel : bool;
+  f_followup : option str }.
+Definition provider_endpoint (p : cli_provider) : str :=
+  match p with
+  | POpenai => lit "https://api.openai.com/v1/responses"
+  | POpenrouter => lit "https://openrouter.ai/api/v1/responses"
+  end.
+Definition provider_key_var (p : cli_provider) : str := match p with POpenai => E_OPENAI | POpenrouter => E_OPENROUTER end.
+(* std::env::set_var: the new binding shadows any older one *)
+Definition setenv (e : env) (k v : str) : env := (k, v) :: e.
+Definition setenv_opt (e : env) (k : str) (v : option str) : env := match v with Some x => setenv e k x | None => e end.
+Definition cli_public_env (f : cli_flags) (e : env) : env :=
+  let e1 := setenv e E_ENDPOINT (provider_endpoint (f_provider f)) in
+  let e2 := setenv_opt e1 E_MODEL (f_model f) in
+  let e3 := if f_stateless f then setenv e2 E_STATELESS (lit "1") else e2 in
+  let e4 := if f_parallel f then setenv e3 E_PARALLEL (lit "1") else e3 in
+  setenv_opt e4 E_FOLLOWUP (f_followup f).
+(* None = the CLI bails out ("missing API key: set .. or RIP_OPENRESPONSES_API_KEY") before anything is spawned *)
+Definition cli_env (f : cli_flags) (e : env) : option env :=
+  match over (getenv e (provider_key_var (f_provider f))) (getenv e E_API_KEY) with
+  | Some k => Some (setenv (cli_public_env f e) E_API_KEY k)
+  | None => None
+  end.
+Definition nonblank_trimmed (o : option str) : option str :=
+  match o with Some v => if blank v then None else Some v | None => None end.
+Definition cli_ovr (f : cli_flags) : ovr :=
+  mkOvr (Some (provider_endpoint (f_provider f))) (nonblank_trimmed (f_model f))
+        (if f_stateless f then Some true else None) (if f_parallel f then Some true else None)
+        (nonblank_trimmed (f_followup f)).
+Definition cli_world (f : cli_flags) (w : world) : option world :=
+  option_map (fun e' => mkWorld (w_layers w) e' (cli_ovr f) (w_misfit w)) (cli_env f (w_env w)).
+
 (* ---- process output at start-up (provider_openresponses.rs from_env, called once by `serve` / `rip serve`) -------- *)
 (* parse_tool_choice_env, the non-JSON forms: the error text of a value that is not auto | none | required | function:<name> *)
 Fixpoint drop_prefix (p s : str) : option str :=
@@ -775,7 +816,13 @@ Definition reason_text (r : N) : str :=
   | _ => lit "fuel"
   end.
 
-Record case := mkCase { cs_world : world; cs_thread : bool; cs_outcome : N; cs_obs : list N }.
+Record case := mkCase { cs_world : world; cs_cli : option cli_flags; cs_thread : bool; cs_outcome : N; cs_obs : list N }.
+(* the world the authority lives in: the scenario's, or what `rip run --provider ..` makes of it *)
+Definition case_world (c : case) : world :=
+  match cs_cli c with
+  | Some f => match cli_world f (cs_world c) with Some w' => w' | None => cs_world c end
+  | None => cs_world c
+  end.
 
 Definition enc_doctor (d : option doctor_summary) : list N :=
   match d with
@@ -851,7 +898,7 @@ Definition enc_report (w : world) : list N :=
 
 (* outcome 99: only the diagnostic surface was exercised (GET /config/doctor, `rip config doctor`) *)
 Definition model_obs (c : case) : list N :=
-  let w := cs_world c in
+  let w := case_world c in
   if cs_outcome c =? 99 then enc_report w else
   let o := run 40 (outcome_script (cs_outcome c)) (cs_thread c) w (lit "prompt") [IUser (lit "prompt")] in
   let reqs := enc_req_frames (out_session o) in
